@@ -19,7 +19,7 @@ RULE = ('generated specs (multi-namespace imports, cross-namespace parents and t
         'generated valid value, is_/get_/creator helpers, void-tag instances, <Name>_validator for types '
         'and aliases, route objects with name/version/deprecated/validators/attrs, ROUTES). non-trivial = '
         '>=2 namespaces with a cross-namespace reference, or a forward reference, or a subtype tree; '
-        'distinct by (spec, first import).')
+        'distinct by (spec, first import). Every other spec with three chained namespaces carries an alias chain across them; string attribute values and defaults are compared as the compiler accepted them.')
 ASSUMPTIONS = ['Identifiers follow the documented conventions and are not Python reserved words.']
 SCRIPT = os.path.join(VERIF_DIR, 'sv', 'py_introspect.py')
 
